@@ -45,13 +45,17 @@ type PropertyHandler interface {
 // updater update the specific property to downstream.
 type DefaultPropertyHandler struct {
 	lastUpdateProperty interface{}
+	// hasLastUpdate is false until the first property has been handled: before that nothing has been
+	// applied, so even an empty (nil) property is not "the same as last time".
+	hasLastUpdate bool
 
 	converter PropertyConverter
 	updater   PropertyUpdater
 }
 
 func (h *DefaultPropertyHandler) isPropertyConsistent(src interface{}) bool {
-	isConsistent := reflect.DeepEqual(src, h.lastUpdateProperty)
+	isConsistent := h.hasLastUpdate && reflect.DeepEqual(src, h.lastUpdateProperty)
+	h.hasLastUpdate = true
 	if isConsistent {
 		return true
 	} else {
